@@ -407,7 +407,9 @@ func (f *formatter) FormatFieldList(fieldList ast.FieldList, endOfDefComment *as
 }
 
 func (f *formatter) FormatFieldDefinition(field *ast.FieldDefinition) {
-	if !f.emitBuiltin && strings.HasPrefix(field.Name, "__") {
+	// The meta fields __schema and __type that the loader adds to the query root come from no
+	// source (they have no position) and no source may spell them out: never print them.
+	if strings.HasPrefix(field.Name, "__") && (!f.emitBuiltin || field.Position == nil) {
 		return
 	}
 
